@@ -181,6 +181,10 @@ Proof.
   destruct ev; cbn; try discriminate. intros H. unfold on_child_update. now rewrite H.
 Qed.
 
+Lemma child_update_resync c parents old cur :
+  get_rv old = get_rv cur -> on_child_update c parents old cur = [].
+Proof. intros H. unfold on_child_update. rewrite H. now rewrite eqb_refl_s. Qed.
+
 (* resolveControllerRef *)
 Lemma resolve_sound c parents ns r p :
   resolve_controller_ref c parents ns r = Some p ->
@@ -307,17 +311,6 @@ Proof.
   intros Hr W. destruct (controlled_child_sound c parents ev r Hr) as [E|(p & _ & Hin & _ & _ & Hk & U & _)]; [exact E|].
   exfalso. exact (W p Hin Hk U).
 Qed.
-
-(* names are what the API server admits: no "/" *)
-Definition slash_free (p : json) : bool := no_char slash (get_ns p) && no_char slash (get_name p).
-
-Definition names_ok (parents : list json) (s : src) (ev : event) : bool :=
-  match s with
-  | SParent => true
-  | SChild =>
-      forallb slash_free parents && no_char slash (get_ns (ev_obj ev)) &&
-      match controller_of (ev_obj ev) with Some r => no_char slash (or_name r) | None => true end
-  end.
 
 Lemma key_lookup_names c ns r p :
   slash_free p = true -> no_char slash ns = true -> no_char slash (or_name r) = true ->
@@ -449,8 +442,6 @@ Proof.
 Qed.
 
 (* ====================== decorator ====================== *)
-Definition d_slot (p : json) : string * string * string := (get_api_version p, get_kind p, key_of p).
-
 Lemma d_enqueue_obj_sound c o k :
   In k (d_enqueue_parent c (WObj o)) -> k = d_key_of o /\ d_cares c o = true.
 Proof.
@@ -492,6 +483,10 @@ Lemma d_resync_nothing c parents ev :
 Proof.
   destruct ev; cbn; try discriminate. intros H. unfold d_on_child_update. now rewrite H.
 Qed.
+
+Lemma d_child_update_resync c parents old cur :
+  get_rv old = get_rv cur -> d_on_child_update c parents old cur = [].
+Proof. intros H. unfold d_on_child_update. rewrite H. now rewrite eqb_refl_s. Qed.
 
 Lemma d_resolve_sound c parents ns r p :
   d_resolve_controller_ref c parents ns r = Some p ->
@@ -710,4 +705,38 @@ Lemma d_unmatched_tombstone_queued :
 Proof.
   intros H. specialize (H d_cex_cfg [] (EDeleteTombstone "ns/p" cex_parent) eq_refl).
   vm_compute in H. discriminate.
+Qed.
+
+(* ====================== related objects ====================== *)
+Lemma related_event_spec c a parents ev p :
+  In p (on_related_event c a parents ev) <-> In p parents /\ related_affects c a ev p = true.
+Proof.
+  unfold related_affects.
+  destruct ev as [o|old cur|o|k o]; cbn [on_related_event is_resync ev_states negb andb];
+    try (unfold find_related_parents; rewrite filter_In; tauto).
+  destruct (String.eqb (get_rv old) (get_rv cur)); cbn [negb andb].
+  - split; [intros []|intros [_ H]; discriminate].
+  - unfold find_related_parents. rewrite filter_In. tauto.
+Qed.
+
+Lemma related_resync_nothing c a parents ev :
+  is_resync ev = true -> on_related_event c a parents ev = [].
+Proof. destruct ev; cbn; try discriminate. intros H. now rewrite H. Qed.
+
+Lemma related_keys_complete cc c a parents ev p :
+  In p parents -> related_affects c a ev p = true -> cares (e_cc cc) p = true ->
+  In (key_of p) (related_keys cc c a parents ev).
+Proof.
+  intros Hin Ha Hc. unfold related_keys. apply in_flat_map. exists p. split.
+  - apply related_event_spec. auto.
+  - rewrite (enqueue_obj_complete _ _ Hc). now left.
+Qed.
+
+Lemma related_keys_sound cc c a parents ev k :
+  In k (related_keys cc c a parents ev) ->
+  exists p, In p parents /\ key_of p = k /\ related_affects c a ev p = true /\ cares (e_cc cc) p = true.
+Proof.
+  unfold related_keys. intros H. apply in_flat_map in H. destruct H as (p & Hp & Hk).
+  apply related_event_spec in Hp. destruct Hp as [Hin Ha].
+  apply enqueue_obj_sound in Hk. destruct Hk as [-> Hc]. exists p. auto.
 Qed.
